@@ -101,6 +101,16 @@ for pid in sorted(md.CLAIMED):
         else:
             c["text"] = c["text"] + "  Round-10 triage: " + text + "."
         c["technique"] = c["technique"] + "; " + tech
+    add11 = getattr(md, "ADDENDA_R11", {}).get(pid)
+    if add11:
+        ref, text, tech = add11
+        c["design_ref"] = c["design_ref"] + ", " + ref
+        if "  Not decided:" in c["text"]:
+            head, tail = c["text"].split("  Not decided:", 1)
+            c["text"] = head + "  Round 11: " + text + ".  Not decided:" + tail
+        else:
+            c["text"] = c["text"] + "  Round 11: " + text + "."
+        c["technique"] = c["technique"] + "; " + tech
     checks.append({
         "property_id": pid,
         "quick_cmd": "./check %s --tier quick" % pid,
